@@ -258,6 +258,10 @@ func (c *inlCtx) exprRewrites(s ast.Stmt) {
 				cur.Replace(r)
 				return false
 			}
+			if r := c.betaReduce(x); r != nil {
+				cur.Replace(r)
+				return false
+			}
 		case *ast.SelectorExpr:
 			if r := c.etaExpand(x, cur); r != nil {
 				cur.Replace(r)
@@ -478,4 +482,84 @@ func (c *inlCtx) stable(id *ast.Ident) bool {
 		return writes <= 1
 	}
 	return false
+}
+
+// betaReduce: (func(p T) R { return e })(a)  ->  R(e[p := a])  for a literal that is invoked where it is written, whose
+// body is one return of one expression, with side-effect-free arguments of exactly the parameter types.
+func (c *inlCtx) betaReduce(call *ast.CallExpr) ast.Expr {
+	lit, ok := unparen(call.Fun).(*ast.FuncLit)
+	if !ok {
+		return nil
+	}
+	if _, isClone := c.n.back[call]; isClone {
+		return nil
+	}
+	if len(lit.Body.List) != 1 || lit.Type.Results == nil || lit.Type.Results.NumFields() != 1 || call.Ellipsis.IsValid() {
+		return nil
+	}
+	ret, ok := lit.Body.List[0].(*ast.ReturnStmt)
+	if !ok || len(ret.Results) != 1 {
+		return nil
+	}
+	sig, _ := c.typeOf(lit).(*types.Signature)
+	if sig == nil || sig.Variadic() || sig.Params().Len() != len(call.Args) {
+		return nil
+	}
+	subst := map[types.Object]ast.Expr{}
+	for i := 0; i < sig.Params().Len(); i++ {
+		p := sig.Params().At(i)
+		at := c.typeOf(call.Args[i])
+		if !simpleExpr(c.info, call.Args[i]) || at == nil || !types.Identical(at, p.Type()) {
+			return nil
+		}
+		subst[p] = call.Args[i]
+	}
+	// parameters must not be written in the body (it is a single return expression: only closures could, and & could)
+	bad := false
+	ast.Inspect(ret.Results[0], func(n ast.Node) bool {
+		switch x := n.(type) {
+		case *ast.FuncLit:
+			bad = true
+		case *ast.UnaryExpr:
+			if x.Op == token.AND {
+				bad = true
+			}
+		}
+		return !bad
+	})
+	if bad {
+		return nil
+	}
+	body := cloneAST(ret.Results[0], c.n.back).(ast.Expr)
+	holder := &ast.ExprStmt{X: body}
+	rewriteIdents(holder, func(e ast.Expr, isSel, isKey bool) ast.Expr {
+		id, ok := e.(*ast.Ident)
+		if !ok || isSel {
+			return e
+		}
+		if a, ok := subst[c.useOf(id)]; ok && c.useOf(id) != nil {
+			cl := cloneAST(a, c.n.back).(ast.Expr)
+			switch cl.(type) {
+			case *ast.Ident, *ast.SelectorExpr, *ast.BasicLit, *ast.ParenExpr, *ast.IndexExpr, *ast.CallExpr:
+				return cl
+			}
+			return &ast.ParenExpr{X: cl}
+		}
+		return e
+	})
+	var out ast.Expr = &ast.ParenExpr{X: holder.X}
+	rt := sig.Results().At(0).Type()
+	if et := c.typeOf(ret.Results[0]); et == nil || !types.Identical(et, rt) {
+		te := typeExpr(rt, c.pkg.Types, c.file, c.info)
+		if te == nil {
+			return nil
+		}
+		if _, isPtr := te.(*ast.StarExpr); isPtr {
+			te = &ast.ParenExpr{X: te}
+		}
+		out = &ast.CallExpr{Fun: te, Args: []ast.Expr{holder.X}}
+	}
+	c.changed = true
+	c.n.lg.Inlined = append(c.n.lg.Inlined, fmt.Sprintf("%s: function literal called where it is written, into %s (beta reduction)", c.n.w.Pos(call.Pos()), c.rootName))
+	return out
 }
